@@ -1161,6 +1161,7 @@ func (b *Body) textlessNullOnlyWhenRaw(l *Ledger) {
 //   - present is true only where the lookup found the member and it is not null,
 //   - the string handed back with present == true is what the codec's decoder made of the
 //     member's text, and the error is that decoder's.
+//
 // Accessors that go through such a helper are judged on the helper's results.
 type memberHelperInfo struct {
 	nameIdx, strIdx, presentIdx, errIdx int
